@@ -165,6 +165,15 @@ class OutgoingRIB(Cache):
         for route in self.cached_routes(list(self.families)):
             self.add_to_rib(route, True)
 
+        if not self.cache:
+            # no Adj-RIB-Out is kept (adj-rib-out false): nothing above brings the CONFIGURED routes back, they were
+            # only ever in the queue which the end of the previous session emptied -- every session after the first
+            # got an End-of-RIB on an empty table. The routes a watchdog holds back stay held back.
+            held = {index for states in self._watchdog.values() for index in states.get('-', {})}
+            for route in new:
+                if route.index() not in held:
+                    self.add_to_rib(route, True)
+
         for index in list(indexed):
             self._remove_configured(index, indexed.pop(index))
 
